@@ -85,6 +85,10 @@ Qed.
 Example suffix_regex_anchor : Gen.C17.suffix_regex_probe = s2n "\.a\$b$"%string.
 Proof. reflexivity. Qed.
 
+(* the generator of Gen/C17.v found the shapes it expects in the current source (defaults are lists of suffix strings) *)
+Example generator_anchor : Gen.C17.generator_error = [].
+Proof. reflexivity. Qed.
+
 (* list() *)
 Lemma list_spec c t f : In f (finder_list c t) <-> In f (files t) /\ exposable c f.
 Proof. unfold finder_list. rewrite filter_In, is_path_valid_spec. tauto. Qed.
